@@ -656,7 +656,15 @@ fn param_faults(ctx: &Ctx, plan: &mut CallPlan, ep: &EpMeta, wire: &mut WireReq,
                     } else {
                         query.push((key.clone(), v));
                     }
-                    fire(ctx, plan, fired, FK::ParamOpaque, format!("query {}", a.name), Expect::DontCare);
+                    // lossy decoding yields U+FFFD text: certainly not a value of any non-string type
+                    let stringy = matches!(
+                        match irx.dealias(&a.ty) {
+                            Ty::Opt(i) | Ty::List(i) | Ty::Set(i) => irx.dealias(i),
+                            o => o,
+                        },
+                        Ty::Prim(Prim::String) | Ty::Prim(Prim::Any) | Ty::Prim(Prim::Binary)
+                    );
+                    fire(ctx, plan, fired, FK::ParamOpaque, format!("query {}", a.name), if stringy { Expect::DontCare } else { reject(&a.name) });
                 }
             }
             PKind::Header => {
@@ -998,7 +1006,10 @@ pub fn apply_response_faults(
         if wire.status == 204 {
             wire.status = 200;
         } else {
+            // a 204 carries neither a body nor a Content-Type
             wire.status = 204;
+            wire.remove_header("content-type");
+            bytes.clear();
         }
         fire(ctx, plan, &mut fired, FK::StatusFlip, format!("-> {}", wire.status), Expect::Judge);
     }
